@@ -209,7 +209,7 @@ def _cone3d_bad(t):
     use_alpha_vec_contract(t)
     obj = SObj(cls_ref(ORD, "ConeOrder3D"))
     paths = t.run(ORD, "ConeOrder3D.__init__", ["sharp"], self_val=obj)
-    t.prove("raises_ValueError", z3.BoolVal(len(paths) == 1 and paths[0].kind == "raise" and paths[0].value[0] == "ValueError"))
+    t.prove("is_rejected_with_an_exception", z3.BoolVal(len(paths) == 1 and paths[0].kind == "raise"))
 
 
 def _trig_2d(t, deg):
